@@ -238,5 +238,71 @@ pub fn job_c05(out_dir: &str, tier: &str, seed: u64) {
         let key = format!("{}|{}|{}|{}", rec["doc"], rec["elemH"], rec["docH"], rec["obs"]);
         sh.push(&rec, &src, Some(&key), nsel + ndoc > 0);
     }
+    // replay of the design-level model (spec/Handlers.tla, MC_Handlers): every (document, handler set) of the bounded
+    // instance is rendered and run on the real code; judged like any other record
+    let path = std::env::var("VERIF_REPLAY_FILE").unwrap_or_default();
+    let text = std::fs::read_to_string(&path).unwrap_or_default();
+    let lines: Vec<&str> = text.lines().filter(|l| l.contains("\"hdoc\"")).collect();
+    let stride = if quick { (lines.len() / 5000).max(1) } else { 1 };
+    let mut replayed = 0usize;
+    for (li, line) in lines.iter().enumerate() {
+        if li % stride != 0 { continue; }
+        let v: Value = match serde_json::from_str(line) { Ok(v) => v, Err(_) => continue };
+        let items: Vec<Value> = v["hdoc"].as_array().cloned().unwrap_or_default();
+        // adjacent text items would be one text node; foreign items need their context: not renderable one to one
+        if items.windows(2).any(|w| w[0]["k"] == "tx" && w[1]["k"] == "tx") { continue; }
+        if items.iter().any(|t| t["k"] == "st" && t["ns"] != "html") { continue; }
+        let mut html: Vec<u8> = Vec::new(); let mut ranges: Vec<(usize, usize)> = Vec::new();
+        let bytes = |x: &Value| -> Vec<u8> { x.as_array().map(|a| a.iter().map(|c| c.as_u64().unwrap_or(63) as u8).collect()).unwrap_or_default() };
+        for (ix, t) in items.iter().enumerate() {
+            let s = html.len();
+            match t["k"].as_str().unwrap_or("") {
+                "st" => { html.push(b'<'); html.extend(bytes(&t["n"]));
+                          for a in t["attrs"].as_array().cloned().unwrap_or_default() { html.push(b' '); html.extend(bytes(&a[0])); html.extend_from_slice(b"=\""); html.extend(bytes(&a[1])); html.push(b'"'); }
+                          html.extend_from_slice(if t["sc"] == true { b"/>" } else { b">" }); }
+                "et" => { html.extend_from_slice(b"</"); html.extend(bytes(&t["n"])); html.push(b'>'); }
+                "tx" => html.extend_from_slice(format!("t{ix}").as_bytes()),
+                "cm" => html.extend_from_slice(b"<!--c-->"),
+                "dt" => html.extend_from_slice(b"<!DOCTYPE html>"),
+                _ => {}
+            }
+            ranges.push((s, html.len()));
+        }
+        let mut elem_h = Vec::new(); let mut elem_cfg = Vec::new();
+        for e in v["hs"]["elemH"].as_array().cloned().unwrap_or_default() {
+            let css = crate::props::sel::render_selector(&e["sel"]);
+            elem_h.push(json!({"sel": e["sel"], "el": e["el"], "tx": e["tx"], "cm": e["cm"], "et": e["et"]}));
+            let mut c = json!({"sel": css});
+            if e["el"] == true { c["element"] = if e["et"] == true { json!([{"op":"on_end_tag","a":[[]]}]) } else { json!([]) }; }
+            if e["tx"] == true { c["text"] = json!([]); }
+            if e["cm"] == true { c["comments"] = json!([]); }
+            elem_cfg.push(c);
+        }
+        let mut doc_h = Vec::new(); let mut doc_cfg = Vec::new();
+        for d in v["hs"]["docH"].as_array().cloned().unwrap_or_default() {
+            doc_h.push(json!({"dt": d["dt"], "cm": d["cm"], "tx": d["tx"], "de": d["de"]}));
+            let mut c = json!({});
+            if d["dt"] == true { c["doctype"] = json!([]); }
+            if d["cm"] == true { c["comments"] = json!([]); }
+            if d["tx"] == true { c["text"] = json!([]); }
+            if d["de"] == true { c["end"] = json!([]); }
+            doc_cfg.push(c);
+        }
+        if elem_h.is_empty() && doc_h.is_empty() { continue; }
+        let cfg = json!({"elem": elem_cfg, "doc": doc_cfg, "strict": false});
+        let mut obs = Vec::new(); let mut seen = std::collections::HashSet::new();
+        for (variant, c) in [("single", vec![]), ("bytewise", (1..html.len()).collect::<Vec<_>>())] {
+            let tl = driver::run(&cfg, &html, &c, &RunOpts::default());
+            let (evs, res) = project(&tl, &ranges, &items);
+            let key = format!("{}|{}", res, Value::Array(evs.clone()));
+            if seen.insert(key) { obs.push(json!({"variant": variant, "res": res, "evs": evs})); }
+        }
+        n += 1; replayed += 1;
+        let rec = json!({"id": format!("c05-{n}"), "doc": items, "elemH": elem_h, "docH": doc_h, "obs": obs});
+        let src = json!({"id": rec["id"], "cfg": cfg, "html": String::from_utf8_lossy(&html), "input": html, "cuts": [], "replayed_from": "MC_Handlers"});
+        let key = format!("{}|{}|{}|{}", rec["doc"], rec["elemH"], rec["docH"], rec["obs"]);
+        sh.push(&rec, &src, Some(&key), true);
+    }
+    eprintln!("c05: replayed {replayed} model cases");
     sh.finish(json!({"rule": "seeded documents of <= 12 items (doctype, start/end tags over 12 names incl. voids, svg island, title (RCDATA), self-closing syntax, mis-nesting, stray and ancestor-closing end tags, unclosed elements, comments, text) x 0-3 selector handlers (type, *, .class, name[attr], child/descendant) each with any combination of element(+end-tag) / text / comments handlers, optionally removing the matched element, x 0-2 document handler records (doctype / comments / text / end); observed under single write, byte-wise and random cuts. Non-trivial = at least one handler registered."}));
 }
